@@ -52,10 +52,10 @@ CLAIMED = {
             "extends links parent/child only behind the root-level and single-parent tests (error edges) and block registration only behind the duplicate test; compile-time stores to Template fields target only the template under construction or a freshly compiled parent (never a cached/shared one); execution runs the document of the template reached by following parent until nil; the block node walks .child from the root, executes the last definition and hands [0:len-1] to Super, which again takes the last",
             "the rendered text of an inheritance chain as an observed value", "DESIGN.md §3 C10"),
     "C11": ("who-may-call table over resolved callees, loop-shape and path-guard queries, argument provenance over go/ssa",
-            "file-system entry points are called only inside TemplateLoader implementations; loaders are invoked only by the set's resolver, in ascending order, first hit returns from inside the loop, total miss is an error; every name handed to FromFile/resolveTemplate is resolveFilename(<referring template>, name) on the referring set; include copies Public/Private only on the !only edge, stores with-pairs on every path and swallows a failed load only under if_exists && Sender==fromfile",
+            "file-system entry points are called only inside TemplateLoader implementations; loaders are invoked only by the set's resolver, in ascending order, first hit returns from inside the loop, total miss is an error; every name handed to FromFile/resolveTemplate is resolveFilename(<referring template>, name) on the referring set, the referring template being the parser's template or a node field that only captures it (never ctx.template, the root of the executing chain); include copies Public/Private only on the !only edge, stores with-pairs on every path and swallows a failed load only under if_exists && Sender==fromfile && Filename==<requested name>",
             "rendering equivalence of literal vs computed names; behaviour of user-supplied loaders", "DESIGN.md §3 C11"),
     "C19": ("loop-shape (induction variable, loop-carried phi), provenance and path-guard queries over go/ssa + registry extraction",
-            "both chain application sites iterate ascending, thread each output into the next input, return/write the last output and have no successful exit that skips the chain; a filter's argument is its parameter expression evaluated with the current ctx or AsValue(nil) on all three routes; registry misses are error returns and entries are used only on the hit edge; registries are written only by Register*/Replace* behind existence tests; built-in names are distinct; chains grow only by append; the filter chain is parsed at the factor level",
+            "both chain application sites iterate ascending, thread each output into the next input, return/write the last output, have no successful exit that skips the chain and leave the chain loop early only with an error; a filter's argument is its parameter expression evaluated with the current ctx or AsValue(nil) on all three routes; registry misses are error returns and entries are used only on the hit edge; registries are written only by Register*/Replace* behind existence tests; built-in names are distinct; chains grow only by append; the filter chain is parsed at the factor level",
             "equality of chain results with ApplyFilter composition as observed values", "DESIGN.md §3 C19"),
     "C12": ("static effect/ownership analysis + path-guard queries over go/ssa",
             "no map update/delete reachable from execution targets the caller's Context, ExecutionContext.Public, TemplateSet.Globals or package-level Contexts; no reflect.Set*; every ExecutionContext gets a fresh Private map; for/with/macro/block.Super bind names and run their body in a child context; context keys are validated (identifier syntax, macro clash) with error returns before execution; Globals merged before the caller context; Private consulted before Public",
